@@ -238,6 +238,10 @@ def job_eacces(res, rng, sc, w, job):
         os.link(fp, os.path.join(hl, "ro", "alias%d" % k))
     with open(os.path.join(hl, "live", "single.txt"), "wb") as f:
         f.write(b"one name only\n")
+    # ... and a subdirectory, which cannot be entered: that is a failure to report like any other
+    os.makedirs(os.path.join(hl, "ro", "sub"))
+    with open(os.path.join(hl, "ro", "sub", "inner.txt"), "wb") as f:
+        f.write(b"out of reach\n")
     os.chmod(os.path.join(hl, "ro"), 0o744)
     try:
         cols = ["path", "size", "sha1", "sha256", "line_count", "contains('line')"]
@@ -260,6 +264,10 @@ def job_eacces(res, rng, sc, w, job):
                     rows = r.rows(len(cols))
                 except ValueError as e:
                     res.viol("`%s`: undecodable output (%s)" % (q, e), ctx)
+                    continue
+                if r.rc != 1 or b"hl/ro/sub" not in r.err:
+                    res.viol("`%s`: the directory hl/ro/sub cannot be entered, but the status is %s and stderr %r (expected status 1 and the path named)" % (
+                        q, r.rc, r.err[:160]), ctx)
                     continue
                 got = sorted(row for row in rows if row[0].startswith("hl/live/"))
                 if got != want:
